@@ -177,7 +177,7 @@ def gen_lat_program(rng):
     p = {"rels": [{"arity": rng.choice([1, 2, 2, 3])} for _ in range(nrel)], "rules": []}
     nlat = rng.range(1, 2)
     for _ in range(nlat):
-        p["rels"].append({"arity": rng.choice([1, 2, 2, 3]), "lat": rng.choice(["max", "min", "min", "set", "opt"])})
+        p["rels"].append({"arity": rng.choice([1, 2, 2, 3]), "lat": rng.choice(["max", "min", "min", "set", "set", "opt"])})
     lats = list(range(nrel, nrel + nlat))
     rels = list(range(nrel))
     def rule(h, body_rels):
@@ -207,6 +207,13 @@ def gen_lat_program(rng):
             else: hargs.append(rng.range(0, 3))
         p["rules"].append({"heads": [(h, hargs)], "body": body + guards})
     for l in lats:
+        if p["rels"][l]["lat"] == "set" and p["rels"][l]["arity"] == 2:
+            # data-flow shape: whole sets flow along the edges of a (cyclic) graph, so that a stored set is raised by larger supersets
+            e2 = [r for r in rels if p["rels"][r]["arity"] == 2]
+            if e2:
+                e = rng.choice(e2)
+                p["rules"].append({"heads": [(l, [("var", 0), ("single", ("var", 1))])], "body": [("cl", e, [("v", 0), ("v", 1)], [])]})
+                p["rules"].append({"heads": [(l, [("var", 1), ("var", 2)])], "body": [("cl", l, [("v", 0), ("v", 2)], []), ("cl", rng.choice(e2), [("v", 0), ("v", 1)], [])]})
         rule(l, [rng.choice(rels)])                      # seed the lattice from a relation
         if rng.chance(4, 5): rule(l, [l, rng.choice(rels)])   # recursion through the lattice (shortest-path shape)
         if rng.chance(1, 3): rule(l, [l, l])
@@ -284,6 +291,16 @@ def gen_agg_program(rng):
             kar = p["rels"][key]["arity"]
             kvars = list(range(kar))
             body = [("cl", key, [("v", v) for v in kvars], [])]
+            # further positive clauses (rules with several clauses get the "any relation empty" early exit)
+            for _ in range(rng.choice([0, 0, 1, 2])):
+                r2 = rng.below(base)
+                a2 = p["rels"][r2]["arity"]
+                args2 = []
+                for j in range(a2):
+                    if rng.chance(1, 2): args2.append(("v", rng.choice(kvars)))
+                    else:
+                        nv = 30 + len(kvars); args2.append(("v", nv)); kvars.append(nv)
+                body.append(("cl", r2, args2, []))
             aargs, bound = [], []
             bv = 20
             for j in range(sar):
